@@ -64,8 +64,8 @@ func vModelQ(r []vRec) []vH {
 }
 
 type vAccState struct {
-	xi  [][]vH    // E entries (sets)
-	rdy [][]vRec  // E entries
+	xi  [][]vH   // E entries (sets)
+	rdy [][]vRec // E entries
 }
 
 type vAccResult struct {
